@@ -53,7 +53,7 @@ ASSUMPTIONS = [
     "requests are positive Python ints (or no argument = one sample); "
     "cumulative position is capped at 1e10 + 2e6 samples",
 ]
-QUICK_BUDGET_S = 90
+QUICK_BUDGET_S = 240
 THOROUGH_BUDGET_S = 1500
 
 POS_CAP = 10 ** 10
